@@ -44,7 +44,7 @@ Section Syntax.
     assert (E1 : String.eqb ("--init=" ++ v) "--" = false) by reflexivity. rewrite E1.
     assert (E2 : in_list ("--init=" ++ v) CLI_FLAGS = false) by reflexivity. rewrite E2.
     assert (E3 : prefix "--throttle" ("--init=" ++ v) = false) by reflexivity.
-    assert (E4 : prefix "--init" ("--init=" ++ v) = true) by reflexivity.
+    assert (E4 : prefix "--init=" ("--init=" ++ v) = true) by (destruct v; reflexivity).
     cbn [negb andb]. rewrite E3, E4, drop_init.
     change (short_to_long "--init") with "--init".
     change (String.eqb "--init" "--") with false.
